@@ -17,17 +17,17 @@ SESSION_NOTE = ("Trusted: spec/Chess.tla, the sched hooks, TLC, the driver's isr
 
 CHECKS = {
     "C01": ("TLA+ reference rules (Chess.tla) explored by TLC; TLC-enumerated position families replayed into the real move "
-            "generator and random/search-shaped traces of it validated by TraceGame.tla (trace validation both directions)",
+            "generator, random/search-shaped traces of it and the `perft` command-line divide validated by TraceGame.tla (trace validation both directions)",
             "TLC explores the rules state machine exhaustively from the listed roots (sanity inductive, move text injective) and "
             "enumerates whole position families on the full board; every member and every position of recorded games is imported "
             "into the real Game and TLC judges the checked list = Legal(pos) as a multiset and Legal <= unchecked <= Pseudo.", "6-C01", GAME_NOTE),
-    "C02": ("TLC trace validation of every played move against Chess!Apply, on TLC-enumerated families and recorded games",
+    "C02": ("TLC trace validation of every played move against Chess!Apply on TLC-enumerated families and recorded games; design-level Engine.tla (make/unmake model) explored exhaustively and stepped along every trace",
             "For every generated move of every family member and after every step of every recorded game the snapshot of the real "
             "Game must equal Chess!Apply(pos, m); castling-right monotonicity and sanity are TLC invariants of the reference machine.", "6-C02", GAME_NOTE),
-    "C03": ("TLC trace validation with an observation stack: pop must restore the record saved at the matching push; queries must stutter",
+    "C03": ("TLC trace validation with an observation stack: pop must restore the record saved at the matching push, queries must stutter; Engine.tla checked by TLC for Pop o Push = Id",
             "Search-shaped nested push/pop walks over the unchecked list (king captures included) and one push/pop of every generated "
             "move of every family member; TraceGame.tla keeps the stack of observations and requires equality at each pop and after each query.", "6-C03", GAME_NOTE),
-    "C04": ("Zobrist.tla Hash over the key file (bytes read at check time) judged on every observation of every trace; README anchor",
+    "C04": ("Zobrist.tla Hash over the key file (bytes read at check time) judged on every observation of every trace; README anchor; Engine.tla: incremental hash = Hash in every explored state",
             "Every observation carries the four hash limbs; TLC requires limbs = Hash(position) after import, push and pop, for "
             "families and recorded games, and D9C54592621D7040 for the start position.", "6-C04",
             GAME_NOTE + " The key layout is stated in spec/Zobrist.tla and anchored by the README hash."),
@@ -48,7 +48,7 @@ CHECKS = {
             "deeper-then-shallower limit pairs, limit classes up to 255 on tiny positions and unlimited runs under a watchdog; TLC requires every "
             "reported depth <= limit, return without external stop once the limit is reached, and no panic.", "6-C08",
             SEARCH_NOTE + " A watchdog stop while all reported depths are below the limit is treated as a slow search (no verdict)."),
-    "C09": ("RefSearch.tla (unpruned negamax with the named leaf rule) evaluated by TLC on full game trees dumped from the real engine, compared with the table-less optimised search under several ordering states",
+    "C09": ("RefSearch.tla (unpruned negamax with the named leaf rule) evaluated by TLC on full game trees dumped from the real engine, compared with the table-less optimised search under several ordering states; Pvs.tla: the window / re-search algorithm = negamax on all bounded abstract trees",
             "For each (position, depth) the whole tree is dumped with the engine's generator and evaluation; the real search runs with the table "
             "emptied at every node (hook) and with fresh / random history tables; TLC computes the exhaustive value and requires equality after "
             "mate-range clamping.", "6-C09", "TLC as evaluator of a transcribed pure function; trees <= 60000 nodes (depth <= 4 sparse, <= 2 rich)."),
@@ -65,7 +65,7 @@ CHECKS = {
             "members, game states reached through a move prefix) every string of move shape is sent to the real binary and TLC requires "
             "accepted <=> text of a legal move, accepted => the shown position is Apply(pos, m), refused => unchanged.", "6-C12",
             "Upper-case promotion letters and over-long strings are outside the universe (grey). " + GAME_NOTE),
-    "C13": ("TimeBudget.tla (Allowed = 0..remaining; engine formula checked by TLC on the boundary grid) + TraceSession.tla judging info time and announce time of the real binary on the TLC-enumerated grid",
+    "C13": ("TimeBudget.tla (Allowed = 0..remaining; engine formula checked by TLC on the boundary grid, and proved for all naturals with TLAPS) + TraceSession.tla judging info time and announce time of the real binary on the TLC-enumerated grid",
             "TLC enumerates the boundary grid of clocks, increments and move times for both sides; every point is sent to the release and the "
             "checked binary as a go command and TLC requires 0 <= allotted <= time remaining for the mover, no overflow, and for small budgets "
             "that the bestmove arrives within budget plus a wide tolerance.", "6-C13", SESSION_NOTE + " Clock values are limited to 2^31-1 ms."),
@@ -79,10 +79,10 @@ CHECKS = {
             "repaired guards; the boundary histories (397-400 plies then go depth d / infinite), self-play to the end, maximal-mobility boards "
             "found by hill-climbing over accepted FENs, and the rules and search drivers run on builds where an out-of-range access panics.", "6-C15",
             "That an access is out of range is observed by Rust's own checks in the checked build; paths no driver reaches are missed."),
-    "C16": ("Eval.tla piece-square sum (tables dumped from the compiled constants) judged on every observation; mirrored twin game",
+    "C16": ("Eval.tla piece-square sum (tables dumped from the compiled constants) judged on every observation; mirrored twin game; Engine.tla: incremental score = sum in every explored state",
             "Every observation's score must be the sum under one king table; a colour-mirrored twin game is played move for move and must "
             "have the negated score; TLC checks the mirror law on the reference model.", "6-C16", GAME_NOTE),
-    "C17": ("Fen.tla three-way classifier (MustAccept/MustReject/Grey) judging Game::new on exhaustive single-character edits",
+    "C17": ("Fen.tla three-way classifier (MustAccept/MustReject/Grey) judging Game::new and the binary's `position fen` on exhaustive single-character edits; FenScan.tla: the scanner state machine on every short string",
             "For each base FEN every single-character deletion/insertion/replacement over an alphabet of character classes, plus random "
             "multi-edits, is imported under catch_unwind; TLC classifies each string and requires: never a panic, MustReject refused, "
             "MustAccept imported as Parse(text) with its legal moves.", "6-C17",
@@ -90,7 +90,7 @@ CHECKS = {
     "C18": ("TraceSearch.tla Playable(root, pv) judged on every info pv line of searches run over shared-table histories",
             "Every principal variation printed by the real search (captured per search) over same-game, other-game, deeper/shallower and "
             "aborted-search table histories is replayed move by move on Chess.tla; each move must be legal where it is played.", "6-C18", SEARCH_NOTE),
-    "C19": ("functional-dependency monitor (memo variable) in TraceSearch.tla over repeated fresh-table searches after varied histories ending in a reset",
+    "C19": ("functional-dependency monitor (memo variable) in TraceSearch.tla and TraceSession.tla over repeated fixed-depth searches: fresh table / fresh process vs arbitrary histories ending in a reset / ucinewgame",
             "The same (position, depth) is searched from a fresh table, and again after different histories (other positions, other depths, "
             "aborted searches) followed by a table reset; TLC keeps the first result and requires every later one (best move, scores, "
             "principal variations, depths) to be identical.", "6-C19",
